@@ -210,14 +210,17 @@ def solve_scipy(
 
     solve_time = time.perf_counter() - start_time
 
-    # Check if constraints are satisfied (SLSQP can return "optimal" with violated constraints)
+    # Check if constraints and bounds are satisfied at the returned point (SLSQP can
+    # return "optimal" with violated constraints, and not every method enforces them).
+    # The check does not depend on result.success: the status mapping below must
+    # never report an infeasible point as optimal.
     # Use scaled tolerance: atol + rtol * max(1, |constraint_value|)
     atol = tol if tol is not None else 1e-6
     rtol = 1e-6
     constraints_violated = False
     max_violation = 0.0
 
-    if result.success and scipy_constraints:
+    if scipy_constraints:
         for c in scipy_constraints:
             c_val = c["fun"](result.x)
             # Scaled tolerance based on constraint magnitude
@@ -234,8 +237,16 @@ def solve_scipy(
                 max_violation = max(max_violation, violation)
                 constraints_violated = True
 
+    # Declared variable bounds (methods outside BOUNDS_METHODS never see them)
+    for i, (lb, ub) in enumerate(bounds):
+        x_i = float(result.x[i])
+        violation = max(lb - x_i, x_i - ub)
+        if violation > atol + rtol * max(1.0, abs(x_i)):
+            max_violation = max(max_violation, violation)
+            constraints_violated = True
+
     # If SLSQP returned "optimal" but constraints are violated, retry with trust-constr
-    if constraints_violated and method == "SLSQP":
+    if result.success and constraints_violated and method == "SLSQP":
         warnings.warn(
             f"SLSQP returned a solution that violates constraints (max violation: {max_violation:.2e}). "
             "Retrying with trust-constr method for more robust optimization.",
@@ -259,11 +270,17 @@ def solve_scipy(
         status = SolverStatus.OPTIMAL
     elif "maximum" in result.message.lower() and "iteration" in result.message.lower():
         status = SolverStatus.MAX_ITERATIONS
-    elif "infeasible" in result.message.lower() or constraints_violated:
+    elif "infeasible" in result.message.lower() or (
+        result.success and constraints_violated
+    ):
         status = SolverStatus.INFEASIBLE
-    elif "positive directional derivative" in result.message.lower():
+    elif (
+        "positive directional derivative" in result.message.lower()
+        and not constraints_violated
+    ):
         # SLSQP reports this when it converged but hit numerical precision limits
-        # The solution is typically still good - treat as optimal
+        # The solution is typically still good - treat as optimal (it was checked
+        # against the constraints and bounds above)
         status = SolverStatus.OPTIMAL
     else:
         status = SolverStatus.FAILED
